@@ -231,7 +231,7 @@ def sig_complete(repo, res):
         t = ast.unparse(r.value) if r.value is not None else ""
         csl = Slicer(csig.node)
         full = (csl.text(r.value) if r.value is not None else "") + " " + t
-        miss = [w for w in ("cffi_extra_compile_args", "cffi_debug", "get_config_var") if w not in full]
+        miss = [w for w in list(csig.params) + ["get_config_var"] if w not in full]
         if miss:
             res.fail(f"{csig.key}:return", f"_compilation_signature branch returns `{t[:80]}` without {miss}", j.line(r))
         lossy = re.search(r"\b(set|frozenset|sorted|fromkeys|unique)\([^()]*(?:\([^()]*\))?[^()]*cffi_extra_compile_args", full)
